@@ -107,6 +107,11 @@ CHECKS = {
             "Every schema document within 2 (quick, ~65k) / 3 (thorough, millions) deviations (type definitions added / removed / flipped, implements toggled, fields added over a menu of property / edge / custom / undefined / root / nested-list / depth-31 types with every kind of parameter default, field and parameter types changed, schema blocks, scalar and directive definitions): construction must return, and accept exactly when every documented rule holds (interfaces exist and are implemented transitively, inherited fields present and only narrowed, parameters identical and only widened, field types built-in or defined vertex types, no reserved names, no edges into the root, no property parameters, defaults fit, no cycles, no ambiguous origins). On the pinned tree validator and engine agree on every decided document; seven panic sites are known findings.",
             "Documents touching what the documented rules are silent about (duplicate definitions, root properties, nested-list edges, non-built-in parameter types, schema-block count) are checked for no-panic only.",
             "DESIGN.md §4 C19"),
+    "C20": ("exploration",
+            "bounded-exhaustive enumeration of valid schemas (C19 document family within 2 deviations + repository schemas); a fixed battery of introspection queries through the real SchemaAdapter compared as sets with an independent parse of the schema text",
+            "For each of ~4600 accepted schemas: vertex types and interface flags, implements, implementer (strict inverse; empty for object types), properties with types, edges with target / to_many / at_least_one, parameters with types and JSON-encoded defaults (explicit, implicit null, none), entrypoints, the same through the Schema vertex, lookups by name with = and one_of (the adapter's own use of hints); plus check_adapter_invariants(introspection schema, SchemaAdapter).",
+            "Expected contents come from the harness's own SDL parse (schema_model.rs).",
+            "DESIGN.md §4 C20"),
     "C08": ("exploration",
             "exhaustive enumeration of all value pairs and triples over a boundary alphabet, against reference equality/order (i128)",
             "Every ordered pair and triple of a 44-value (quick) / larger (thorough) alphabet is compared with the real PartialEq/PartialOrd impls; equivalence, total-order and numeric-integer laws are checked on each. Exhaustive over the alphabet, which has one representative per class the comparison code distinguishes (sign, i64/u64 range overlap, kinds, nesting).",
